@@ -86,8 +86,9 @@ func DumpAnchors(c *Ctx) (anchorTable, error) {
 		out[cfg.name] = map[string]map[string]string{}
 		for _, pkg := range p.Pkgs {
 			m := map[string]string{}
+			callers := callersByName(pkg)
 			for _, fd := range Funcs(pkg) {
-				m[fd.Name()] = funcSig(fd.Obj)
+				m[fd.Name()] = funcSig(fd.Obj) + " @@ " + strings.Join(callers[fd.Obj], ",") + " @@ " + strings.Join(funcFeatures(pkg, fd), ",")
 			}
 			out[cfg.name][pkg.PkgPath] = m
 		}
@@ -95,7 +96,94 @@ func DumpAnchors(c *Ctx) (anchorTable, error) {
 	return out, nil
 }
 
-// renamedFuncs pairs recorded names that are missing with the one new function of the same signature.
+// callersByName: for every function of pkg the (sorted) display names of the functions of pkg that call it.
+func callersByName(pkg *packages.Package) map[*types.Func][]string {
+	set := map[*types.Func]map[string]bool{}
+	for _, fd := range Funcs(pkg) {
+		ast.Inspect(fd.Decl.Body, func(n ast.Node) bool {
+			call, ok := n.(*ast.CallExpr)
+			if !ok {
+				return true
+			}
+			if cf := calleeFunc(pkg.TypesInfo, call); cf != nil && cf.Pkg() == pkg.Types && cf != fd.Obj {
+				if set[cf] == nil {
+					set[cf] = map[string]bool{}
+				}
+				set[cf][fd.Name()] = true
+			}
+			return true
+		})
+	}
+	out := map[*types.Func][]string{}
+	for fn, m := range set {
+		for name := range m {
+			out[fn] = append(out[fn], name)
+		}
+		sort.Strings(out[fn])
+	}
+	return out
+}
+
+// funcFeatures: what a function body is made of, for telling which of two new functions continues a missing one — the
+// functions it calls (by full name) and the struct fields it touches.
+func funcFeatures(pkg *packages.Package, fd *FuncDecl) []string {
+	set := map[string]bool{}
+	ast.Inspect(fd.Decl.Body, func(n ast.Node) bool {
+		switch x := n.(type) {
+		case *ast.CallExpr:
+			if cf := calleeFunc(pkg.TypesInfo, x); cf != nil {
+				set["call:"+cf.FullName()] = true
+			}
+		case *ast.SelectorExpr:
+			if v, ok := pkg.TypesInfo.Uses[x.Sel].(*types.Var); ok && v.IsField() {
+				set["field:"+v.Name()] = true
+			}
+		}
+		return true
+	})
+	var out []string
+	for k := range set {
+		out = append(out, k)
+	}
+	sort.Strings(out)
+	return out
+}
+
+func jaccard(a, b []string) float64 {
+	in := map[string]bool{}
+	for _, x := range a {
+		in[x] = true
+	}
+	inter, union := 0, len(in)
+	for _, y := range b {
+		if in[y] {
+			inter++
+		} else {
+			union++
+		}
+	}
+	if union == 0 {
+		return 1
+	}
+	return float64(inter) / float64(union)
+}
+
+// recvAndResults: the part of a signature that survives a change of the parameters.
+func recvAndResults(sig string) string {
+	recv := ""
+	if strings.HasPrefix(sig, "recv ") {
+		recv = strings.SplitN(strings.TrimPrefix(sig, "recv "), " ", 2)[0]
+	}
+	res := ""
+	if i := strings.Index(sig, "->"); i >= 0 {
+		res = sig[i:]
+	}
+	return recv + " " + res
+}
+
+// renamedFuncs pairs recorded names that are missing with the one new function that takes their place: the only new
+// function with the same signature, or — among several, or when the parameters changed as well — the only new function
+// with the same receiver and results that is called by exactly the functions that called the missing one.
 func renamedFuncs(p *Program, base map[string]map[string]string) map[*types.Func]string {
 	out := map[*types.Func]string{}
 	for _, pkg := range p.Pkgs {
@@ -107,29 +195,124 @@ func renamedFuncs(p *Program, base map[string]map[string]string) map[*types.Func
 		for _, fd := range Funcs(pkg) {
 			cur[fd.Name()] = fd
 		}
-		missingBySig := map[string][]string{}
-		for name, sig := range rec {
+		type missing struct {
+			name, sig, callers string
+			features           []string
+		}
+		var miss []missing
+		for name, entry := range rec {
 			if cur[name] == nil {
-				missingBySig[sig] = append(missingBySig[sig], name)
+				parts := strings.Split(entry, " @@ ")
+				m := missing{name: name, sig: parts[0]}
+				if len(parts) >= 2 {
+					m.callers = parts[1]
+				}
+				if len(parts) >= 3 && parts[2] != "" {
+					m.features = strings.Split(parts[2], ",")
+				}
+				miss = append(miss, m)
 			}
 		}
-		if len(missingBySig) == 0 {
+		if len(miss) == 0 {
 			continue
 		}
-		newBySig := map[string][]*FuncDecl{}
+		sort.Slice(miss, func(i, j int) bool { return miss[i].name < miss[j].name })
+		var fresh []*FuncDecl
 		for name, fd := range cur {
 			if _, known := rec[name]; !known {
-				s := funcSig(fd.Obj)
-				newBySig[s] = append(newBySig[s], fd)
+				fresh = append(fresh, fd)
 			}
 		}
-		for sig, names := range missingBySig {
-			if len(names) == 1 && len(newBySig[sig]) == 1 {
-				old := names[0]
-				if i := strings.LastIndex(old, "."); i >= 0 {
-					old = old[i+1:] // "(*T).name" -> "name"
+		sort.Slice(fresh, func(i, j int) bool { return fresh[i].Name() < fresh[j].Name() })
+		callers := callersByName(pkg)
+		// the callers of a new function, under the recorded names of callers that are themselves taken as renamed
+		callerKey := func(fd *FuncDecl, renamedTo map[string]string) string {
+			set := map[string]bool{}
+			var add func(f *FuncDecl, depth int)
+			add = func(f *FuncDecl, depth int) {
+				for _, c := range callers[f.Obj] {
+					if old, ok := renamedTo[c]; ok {
+						set[old] = true
+						continue
+					}
+					// a caller that is itself new stands for its own callers (a wrapper put in between)
+					if _, known := rec[c]; !known && depth < 2 && cur[c] != nil {
+						add(cur[c], depth+1)
+						continue
+					}
+					set[c] = true
 				}
-				out[newBySig[sig][0].Obj] = old
+			}
+			add(fd, 0)
+			var names []string
+			for c := range set {
+				names = append(names, c)
+			}
+			sort.Strings(names)
+			return strings.Join(names, ",")
+		}
+		taken := map[*FuncDecl]bool{}
+		renamedTo := map[string]string{} // new display name -> recorded display name
+		accept := func(m missing, fd *FuncDecl) {
+			old := m.name
+			if i := strings.LastIndex(old, "."); i >= 0 {
+				old = old[i+1:] // "(*T).name" -> "name"
+			}
+			out[fd.Obj] = old
+			taken[fd] = true
+			renamedTo[fd.Name()] = m.name
+		}
+		done := map[string]bool{}
+		for pass := 0; pass < 3; pass++ {
+			for _, m := range miss {
+				if done[m.name] {
+					continue
+				}
+				var sameSig, sameShape []*FuncDecl
+				for _, fd := range fresh {
+					if taken[fd] {
+						continue
+					}
+					s := funcSig(fd.Obj)
+					if s == m.sig {
+						sameSig = append(sameSig, fd)
+					}
+					if recvAndResults(s) == recvAndResults(m.sig) && m.callers != "" && callerKey(fd, renamedTo) == m.callers {
+						sameShape = append(sameShape, fd)
+					}
+				}
+				// another missing function with the same signature makes a bare signature match ambiguous
+				rivals := 0
+				for _, m2 := range miss {
+					if m2.sig == m.sig && !done[m2.name] {
+						rivals++
+					}
+				}
+				switch {
+				case pass == 0 && len(sameSig) == 1 && rivals == 1:
+					accept(m, sameSig[0])
+					done[m.name] = true
+				case pass > 0 && len(sameShape) == 1:
+					accept(m, sameShape[0])
+					done[m.name] = true
+				case pass > 0 && len(sameShape) > 1 && len(m.features) > 0:
+					// several candidates in the missing function's place (a wrapper and what it wraps): the one whose
+					// body is made of the same calls and fields, if it stands out
+					best, second := -1.0, -1.0
+					var bestFd *FuncDecl
+					for _, fd := range sameShape {
+						j := jaccard(m.features, funcFeatures(pkg, fd))
+						if j > best {
+							second, best, bestFd = best, j, fd
+						} else if j > second {
+							second = j
+						}
+					}
+					if best >= 0.5 && best-second >= 0.2 {
+						accept(m, bestFd)
+						done[m.name] = true
+					}
+				}
 			}
 		}
 	}
